@@ -1,8 +1,7 @@
 import SradModel.Model.HostSpec
 import SradModel.Proofs.Reseq
 
-namespace Srad.Host
-
+namespace Srad.Host.SeqP
 /-! ### frame facts for the small handlers -/
 
 theorem cancelTimer_fst (s : St) : (cancelTimer s).1 = { s with timer := .none } := by
@@ -1045,4 +1044,4 @@ theorem prompt_in_order (c : Cfg) (s0 : St) (ts : Nat → Nat) (msgs : Nat → R
   obtain ⟨h1, _, _, _, h5, h6, h7⟩ := this
   exact ⟨h6, h7, h1, h5.2.2.1⟩
 
-end Srad.Host
+end Srad.Host.SeqP
